@@ -83,8 +83,9 @@ Section VC.
   Proof.
     induction 1 as [top Ht | l rest Hl Hc IH]; intros m Hm; cbn [hd] in *.
     - assert (m = 0)%nat.
-      { destruct m; [reflexivity|]. rewrite Ht in Hm. cbn [Nat.pow] in Hm.
-        pose proof (Nat.pow_nonzero 2 m). lia. }
+      { destruct m; [reflexivity|]. exfalso. rewrite Ht in Hm.
+        assert (Hp : (2 ^ S m = 2 * 2 ^ m)%nat) by reflexivity. rewrite Hp in Hm.
+        assert (0 < 2 ^ m)%nat by (apply Nat.neq_0_lt_0, Nat.pow_nonzero; discriminate). lia. }
       subst. split; [reflexivity|]. intros k Hk. cbn in Hk. lia.
     - destruct m as [|m]; [cbn in Hm; lia|].
       assert (Hnl : length (nextLayer l) = (2 ^ m)%nat).
@@ -95,7 +96,7 @@ Section VC.
       + cbn [nth]. rewrite Hm, Hnl. cbn [Nat.pow]. reflexivity.
       + change (nth (S k) (l :: nextLayer l :: rest) []) with (nth k (nextLayer l :: rest) []).
         change (nth (S (S k)) (l :: nextLayer l :: rest) []) with (nth (S k) (nextLayer l :: rest) []).
-        apply (IH2 k). cbn [length]. lia.
+        apply (IH2 k). cbn [length] in Hk |- *. lia.
   Qed.
 
   Lemma depthOf_vc : forall arr, depthOf (buildVC arr) = N.of_nat (expOf arr).
